@@ -805,6 +805,15 @@ Definition dyndep_load (g : graph) (f : node) (content : option bytes) : result 
     end
   end.
 
+(* UNDEFINED BEHAVIOUR of the C++: the loop of LoadDyndeps iterates node->out_edges() by iterator
+   while UpdateEdge appends the edge to the out_edges of every implicit input.  When a statement
+   names the dyndep file ITSELF as an implicit input, the vector under iteration grows
+   (reallocation => heap-use-after-free; reproduced: SIGSEGV of the real binary).  [load_dyndep]
+   iterates over the list as it was before the loop, which is what the code does as long as the
+   stale iterators still see the old elements; the correspondence holds on [ub_self_input = false]. *)
+Definition ub_self_input (f : node) (stmts : list dd_stmt) : bool :=
+  existsb (fun st => mem_bytes f (dd_imp_ins st)) stmts.
+
 (* ------------------------------------------------------------------------------------------ *)
 (** * The manifest-level meaning: the same information written into the build statements *)
 
